@@ -54,7 +54,7 @@ Definition read_eqb (a b : obs_read) : bool :=
 
 (* the specification: the view and listing of the first j write-outs *)
 Definition spec_read (ws : list writeout) : view * listing :=
-  (spec_view (adb_of ws), spec_listing (adb_of ws)).
+  (spec_view (fold_left adb_put ws []), spec_listing (fold_left adb_put ws [])).
 Definition meets (r : obs_read) (ws : list writeout) : bool := read_eqb r (Ok (spec_read ws)).
 
 Inductive case :=
